@@ -223,6 +223,11 @@ func genC10(repo string) (string, error) {
 			return "", err
 		}
 	}
+	stf, err := ru.Func("RuleChecker", "strategy")
+	if err != nil {
+		return "", err
+	}
+	fmt.Fprintf(&o.sb, "Definition src_rule_strategy : string := (* checker/rule_checker.go: where the isolation level of a rule's strategy comes from *)\n  %s.\n", goast.Q(ru.Src(stf.Body)))
 	fitf, err := c10Load(repo, "server/schedule/placement/fit.go")
 	if err != nil {
 		return "", err
